@@ -740,6 +740,38 @@ func vfOracleC16(run *vfProdRun) *vfcore.Failure {
 			outOf[o.Idx] = o
 		}
 	}
+	// nothing but latency happens in these cases (no failing answers, and - checked here - no leader move or broker bounce in
+	// the script): a message that is within every limit has no reason to fail
+	calm := true
+	for _, st := range c.Script {
+		if st.Op == "moveLeader" || st.Op == "brokerDown" || st.Op == "leaderless" {
+			calm = false
+		}
+	}
+	for _, l := range c.Faults {
+		for _, f := range l {
+			if f.Kind != "ok" || f.MoveLeader != "" {
+				calm = false
+			}
+		}
+	}
+	for _, e := range v.events {
+		if e.Kind == "client-conn-error" {
+			calm = false // a held answer outlasted the client's read timeout: the producer saw a connection-level failure
+		}
+	}
+	maxReqLimit := int64(MaxRequestSize)
+	if c.Conf.MaxRequestSize > 0 {
+		maxReqLimit = int64(c.Conf.MaxRequestSize)
+	}
+	for _, idx := range run.submitted {
+		if o, ok := outOf[idx]; calm && ok && !o.Ok && len(c.Conf.Interceptors) == 0 && !run.closedEarly {
+			kv := int64(vfMsgKVBytes(idx, c))
+			if kv+200 <= int64(c.Conf.MaxMessageBytes) && 2*(kv+1024) <= maxReqLimit && !strings.Contains(o.Err, "headers requires") {
+				return run.fail("in-limits-message-failed", "message %d (%d key+value bytes; MaxMessageBytes=%d, MaxRequestSize=%d) failed with %q although nothing but latency happened", idx, kv, c.Conf.MaxMessageBytes, maxReqLimit, o.Err)
+			}
+		}
+	}
 	for _, idx := range run.submitted {
 		over := 26
 		if version == 2 {
